@@ -107,9 +107,12 @@ def _judge(self, kwargs, result, what):
                 self._verif_pattern4 = cur
             except Exception:
                 pass
-        REC.notes["C04 pairs adjacent only through the antipodal copy"] += int(np.triu((anti > AMBIG_HI) & ~(direct > AMBIG_HI) & off).sum())
-        REC.notes["C04 adjacent pairs involving index 0"] += int(must[0].sum())
-        REC.notes["C04 two-face contacts (border not judged)"] += int(np.triu(two_face).sum())
+        if what == "adjacency":
+            REC.notes["C04 pairs judged (i<j)"] += int(N * (N - 1) // 2)
+            REC.notes["C04 pairs adjacent only through the antipodal copy"] += int(np.triu((anti > AMBIG_HI) & ~(direct > AMBIG_HI) & off).sum())
+        if what == "adjacency":
+            REC.notes["C04 adjacent pairs involving index 0"] += int(must[0].sum())
+            REC.notes["C04 two-face contacts (border not judged)"] += int(np.triu(two_face).sum())
         if amb.any():
             REC.notes["C04 ambiguous faces (1e-13..1e-8)"] += int(np.triu(amb).sum())
         if problems:
